@@ -60,6 +60,10 @@ claims = {
          "Scanner invariant (stack, event queue, ghost lexeme typestate) proved inductive over all state functions and Scanner.Next; emitted lexemes have begin <= end+1, end inside the input, events paired; keyword lexemes spell a directive word (spell tables checked per transition); schema/enum body length is the library's (assumed) length.",
          "Assumes the schema library's Len()/Position() bounds (deps.spec); ghost-state definitions of found/foundAt; strict ordering across lexemes is proved at emission (typestate of found/foundAt), not re-proved for the FIFO queue.",
          "contract-based deductive verification: inductive invariant of the scanner state machine as function-type contract, VCs from go/ssa discharged by z3/cvc5", "DESIGN.md 4.C14"),
+ "C05": ("proof",
+         "Partial claim, per-state components only. (a) Two-run lemma for each of the 160 scanner state functions and each of the byte pairs LF/CR and space/tab: two runs from the same scanner state that differ only in the byte under the cursor end in the same state (step, return stack, event queue, cursor, open-lexeme typestate) and agree on error / no error - a product VC of the real function with itself, calls abstracted relationally. (b) Line comments: startComment saves the interrupted state; after '#', every byte up to the line end is ignored and nothing but s.step changes, so the saved state is the one that sees the line end (this caught defect F16, repaired by a fix: commit).",
+         "NOT claimed: equality of verdict and catalog of two whole documents under the listed rewritings (comments and blank lines between directives, re-indentation, CRLF, quoting, explicit parentheses) - that relates two complete runs and is outside contracts; the lemmas are necessary conditions for it. Assumed: callees are deterministic functions of their arguments and of the listed receiver fields (the lemma itself for step-function callees; an assumption for helpers).",
+         "contract-based deductive verification: two-run (product) VCs of each state function + one-run postconditions, go/ssa, z3/cvc5", "DESIGN.md 4.C05"),
  "C02": ("proof",
          "Contracts on jerr (line/quote arithmetic, location construction, include-trace append) discharged for all inputs by SMT; wrap-around machine arithmetic modelled.",
          "Trusted: go/ssa translation, govc VC generator, SMT solvers; assumed contracts listed in evidence.assumptions.",
@@ -71,7 +75,6 @@ na = {
  "C12": "final property order is produced by recursive in-place mutation of aliased schema nodes built by the external library; outside the heap subset of the self-written VC generator (local rejection checks are under C11, safety under C01)",
  "C20": "compares the catalogs of two different documents (two whole runs); not a property of any single call",
 }
-na["C05"] = "the per-state two-run lemmas ('\\r' vs '\\n', ' ' vs tab, comment entry/exit) need product VCs with relational call abstraction, which this verifier does not generate; the whole-document rewriting equivalences relate two complete runs on different inputs. No single-call contract states either (DESIGN.md section 0 and 4.C05)"
 pending = {}
 for i in range(1, 21):
     pid = "C%02d" % i
